@@ -72,7 +72,7 @@ def store_case(rng, nops=8):
 
 
 def generate(rng, tier):
-    n = {"quick": 150, "thorough": 3000, "search": 1000}.get(tier, 150)
+    n = {"quick": 400, "thorough": 3000, "search": 1000}.get(tier, 150)
     cases = fault_enum_cases() if tier != "search" else []
     for _ in range(n):
         cases.append(track_case(rng))
